@@ -222,9 +222,9 @@ func runShardChild(a childArgs) error {
 	}
 	defer env.close()
 	emit(fmt.Sprintf("H\t%s\t%d\t%d", g.schema.coq(), g.maxSize, a.cfg))
-	nsteps := a.steps
-	if nsteps == 0 {
-		nsteps = 6 + g.r.IntN(8)
+	nsteps := 6 + g.r.IntN(8) // always drawn, so that a truncated replay sees the same random stream
+	if a.steps > 0 && a.steps < nsteps {
+		nsteps = a.steps
 	}
 	var fs *faultStore
 	if a.profile == "c07" {
@@ -538,12 +538,19 @@ func runHistoriesX(rc *runCtx, profile string, n int, cfgs []int, cross bool, nf
 					mu.Unlock()
 					continue
 				}
-				hr := runHistory(profile, rc.seed, j.idx, j.cfg, 0, scratch, 120*time.Second)
+				hr := runHistory(profile, rc.seed, j.idx, j.cfg, rc.steps, scratch, 120*time.Second)
 				mu.Lock()
 				results = append(results, hr)
 				mu.Unlock()
 			}
 		}()
+	}
+	if rc.only != "" {
+		var oi, oc int
+		fmt.Sscanf(rc.only, "%d:%d", &oi, &oc)
+		jobs <- job{oi, oc, -1, 0}
+		n = 0
+		killJobs = nil
 	}
 	for i := 0; i < n; i++ {
 		if cross {
@@ -578,6 +585,7 @@ func runHistoriesX(rc *runCtx, profile string, n int, cfgs []int, cross bool, nf
 	crashed, hung, toolErr, skipped := 0, 0, 0, 0
 	var crashTexts []string
 	index := []map[string]any{}
+	crashIndex := []map[string]any{}
 	for i, hr := range results {
 		if hr.term == "" {
 			toolErr++
@@ -604,6 +612,9 @@ func runHistoriesX(rc *runCtx, profile string, n int, cfgs []int, cross bool, nf
 		if hr.hung {
 			hung++
 		}
+		if hr.crashed || hr.hung {
+			crashIndex = append(crashIndex, map[string]any{"idx": hr.idx, "cfg": hr.cfg, "steps": hr.steps, "hung": hr.hung, "last": hr.kinds[max(0, len(hr.kinds)-1):], "stderr": hr.errText})
+		}
 		if i < 2 {
 			rc.addSample(map[string]any{"history": hr.idx, "cfg": hr.cfg, "steps": hr.kinds})
 		}
@@ -622,6 +633,7 @@ func runHistoriesX(rc *runCtx, profile string, n int, cfgs []int, cross bool, nf
 	rc.stats["kill_points_beyond_batch"] = notKilled
 	rc.stats["identical_observations_not_repeated"] = skipped
 	rc.stats["crash_texts"] = crashTexts
+	rc.stats["crash_index"] = crashIndex
 	rc.stats["case_index"] = index
 	rc.stats["seed"] = rc.seed
 	if toolErr > 0 {
